@@ -203,6 +203,19 @@ def _generic_memo(ctx):
             if h not in quals:
                 quals.add(h)
                 work.append(h)
+    # ... and everything they reach through the call graph: a cache in a
+    # callee changes what the anchored function computes just as well.  Only
+    # carriers of state are looked at there (cheap syntactic pre-filter in
+    # memo.might_carry_state), so the wider scope costs little.
+    from .memo import might_carry_state
+    try:
+        reach = prog.reachable(sorted(quals))
+    except Exception:  # noqa: BLE001
+        reach = set()
+    for q in sorted(reach):
+        fn = prog.funcs.get(q)
+        if fn is not None and q not in quals and might_carry_state(prog, fn):
+            quals.add(q)
     funcs = [prog.funcs[q] for q in sorted(quals)]
     if funcs:
         check_no_cross_call_state(
